@@ -228,10 +228,13 @@ package verifier
 // Callers instantiate the region with the objects of the graph (AddCert creates every node with
 // both maps, every edge with its certificate). allocated(..) says that these objects existed
 // before the call: the walker allocates new chains, and memory allocated later is
-// unconstrained in govc's model.
+// unconstrained in govc's model. ghost.cert is a fourth free ghost set: the certificates of the
+// region's edges (and the start certificate); the walker proves that every certificate of an
+// emitted chain is in it, which is how callers (VerifyWithContext) transfer what they know about
+// the graph's certificates to the walked chains.
 //@ pred wkNodes(g) = forallv(n, *GraphNode, ghost.wnode(n) ==> n != nil && allocated(n) && allocated(n.parentsBySubjectAndKey) && forallv(k, subjectAndKeyFingerprint, has(n.parentsBySubjectAndKey, k) ==> ghost.wset(n.parentsBySubjectAndKey[k]), has(n.parentsBySubjectAndKey, k)), ghost.wnode(n))
 //@ pred wkSets(g) = forallv(es, *GraphEdgeSet, ghost.wset(es) ==> es != nil && allocated(es) && allocated(es.edges) && forallv(f, string, has(es.edges, f) ==> ghost.wedge(es.edges[f]), has(es.edges, f)), ghost.wset(es))
-//@ pred wkEdges(g) = forallv(e, *GraphEdge, ghost.wedge(e) ==> e != nil && allocated(e) && e.Certificate != nil && (e.issuer != nil ==> ghost.wnode(e.issuer)), ghost.wedge(e))
+//@ pred wkEdges(g) = forallv(e, *GraphEdge, ghost.wedge(e) ==> e != nil && allocated(e) && e.Certificate != nil && ghost.cert(e.Certificate) && (e.issuer != nil ==> ghost.wnode(e.issuer)), ghost.wedge(e))
 // every node filed in the graph's index has its SubjectAndKey (dereferenced by the revisit test)
 //@ pred wkIndex(g) = g != nil && allocated(g) && allocated(g.nodesBySubjectAndKey) && forallv(k, subjectAndKeyFingerprint, has(g.nodesBySubjectAndKey, k) && g.nodesBySubjectAndKey[k] != nil ==> allocated(g.nodesBySubjectAndKey[k]) && g.nodesBySubjectAndKey[k].SubjectAndKey != nil, has(g.nodesBySubjectAndKey, k))
 //@ pred wkGraph(g) = wkIndex(g) && wkNodes(g) && wkSets(g) && wkEdges(g)
@@ -240,16 +243,18 @@ package verifier
 // last; the last certificate is lastEdge.Certificate, required non-nil. Both are written as
 // quantified facts about a position i with the atom i+1 == len(ch): ground index terms such as
 // ch[len(ch)-1] are rewritten by the solvers (sums are flattened) and then no longer match.
-//@ pred wkChain(ch) = forall(i, 0, len(ch), i+1 == len(ch) || ch[i] != nil, ch[i])
+//@ pred wkChain(ch) = forall(i, 0, len(ch), i+1 == len(ch) || ch[i] != nil, ch[i]) && forall(i, 0, len(ch), i+1 == len(ch) || ghost.cert(ch[i]), ch[i])
 //@ pred wkLast(ch, c) = forall(i, 0, len(ch), i+1 == len(ch) ==> ch[i] == c, ch[i])
 // sk is the (subject, key) of no certificate of the chain
-//@ pred skAbsent(sk, ch) = forall(i, 0, len(ch), !eq(sk.RawSubject, ch[i].RawSubject) || !eq(sk.RawSubjectPublicKeyInfo, ch[i].RawSubjectPublicKeyInfo), ch[i])
+// (spec.pmark(i) is the always-true position marker of /verif/specs/certpool_time.smt2, the
+// trigger of the x509 chain contracts; as a premise it only plants the marker term in the goal.)
+//@ pred skAbsent(sk, ch) = forall(i, 0, len(ch), !spec.pmark(i) || !eq(sk.RawSubject, ch[i].RawSubject) || !eq(sk.RawSubjectPublicKeyInfo, ch[i].RawSubjectPublicKeyInfo), spec.pmark(i))
 // e is an edge filed in one of the parent edge sets of node n, under index key k
 //@ pred parentEdge(n, k, e) = has(n.parentsBySubjectAndKey, k) && isEdgeOf(n.parentsBySubjectAndKey[k], e)
 //@ pred edgeType(e) = ite(e.root, x509.CertificateTypeRoot, x509.CertificateTypeIntermediate)
 
 // sk-pair of certificate c occurs in no certificate of the chain
-//@ pred certAbsent(c, ch) = forall(i, 0, len(ch), !eq(c.RawSubject, ch[i].RawSubject) || !eq(c.RawSubjectPublicKeyInfo, ch[i].RawSubjectPublicKeyInfo), ch[i])
+//@ pred certAbsent(c, ch) = forall(i, 0, len(ch), !spec.pmark(i) || !eq(c.RawSubject, ch[i].RawSubject) || !eq(c.RawSubjectPublicKeyInfo, ch[i].RawSubjectPublicKeyInfo), spec.pmark(i))
 
 // continueWalking(found, start, current, soFar, lastEdge). Every emitted chain is the prefix
 // soFar itself at a root edge ([send]); a prefix is extended only by the certificate of a parent
@@ -275,10 +280,11 @@ package verifier
 //@   requires start != nil && lastEdge != nil && allocated(lastEdge) && allocated(soFar)
 //@   requires 1 <= len(soFar) && len(soFar) <= maxIntermediateCount
 //@   requires wkChain(soFar)
-//@   requires soFar[0] == start.Certificate && wkLast(soFar, lastEdge.Certificate) && lastEdge.Certificate != nil
+//@   requires soFar[0] == start.Certificate && wkLast(soFar, lastEdge.Certificate) && lastEdge.Certificate != nil && ghost.cert(lastEdge.Certificate)
 //@   requires current != nil ==> ghost.wnode(current)
 //@   decreases maxIntermediateCount - len(soFar)
 //@   at call send assert arg0 == found && same(arg1, soFar) && lastEdge.root && 1 <= len(arg1) && len(arg1) <= maxIntermediateCount && arg1[0] == start.Certificate && wkLast(arg1, lastEdge.Certificate)
+//@   at call send assert [certs] forall(i, 0, len(arg1), !spec.pmark(i) || (arg1[i] != nil && ghost.cert(arg1[i])), spec.pmark(i))
 //@   at call AppendToFreshChain assert same(arg0, soFar) && arg1 == edge.Certificate && !lastEdge.root && len(soFar) < maxIntermediateCount && parentEdge(current, skfp, edge) && canAdd(edge.Certificate, edgeType(edge), len(soFar))
 //@   at call AppendToFreshChain assert [revisit-issuer] targetNode == g.nodesBySubjectAndKey[skfp] && (targetNode != nil ==> skAbsent(targetNode.SubjectAndKey, soFar))
 //@   at call AppendToFreshChain assert [norevisit] certAbsent(edge.Certificate, soFar)
@@ -293,7 +299,7 @@ package verifier
 //@ func (*Graph).walkFromEdgeToRoot
 //@   uses xadd
 //@   requires wkGraph(g)
-//@   requires start != nil && allocated(start) && start.Certificate != nil
+//@   requires start != nil && allocated(start) && start.Certificate != nil && ghost.cert(start.Certificate)
 //@   requires start.issuer != nil ==> ghost.wnode(start.issuer)
 //@   at call continueWalking assert arg0 == g && arg1 == out && arg2 == start && arg3 == start.issuer && len(arg4) == 1 && arg4[0] == start.Certificate && arg5 == start
 //@   modifies all
@@ -318,7 +324,7 @@ package verifier
 //@ pred candOK(n) = n != nil && ghost.wnode(n) && n.SubjectAndKey != nil && keyOK(n.SubjectAndKey.PublicKey)
 //@ pred verifiedBy(n, c) = ghost.keySigOK(n.SubjectAndKey.PublicKey, c.SignatureAlgorithm, c.RawTBSCertificate, c.Signature)
 //@ pred isCand(g, c, n) = !forall(i, 0, len(cands(g, c)), !(ix(i) && cands(g, c)[i] == n), spec.idx(i))
-//@ pred walkReq(g, c) = wkGraph(g) && g.edges != nil && c != nil && forallv(k, string, has(g.edges.edges, k) ==> ghost.wedge(g.edges.edges[k]), has(g.edges.edges, k)) && forall(i, 0, len(cands(g, c)), ix(i) ==> candOK(cands(g, c)[i]), spec.idx(i))
+//@ pred walkReq(g, c) = wkGraph(g) && g.edges != nil && c != nil && ghost.cert(c) && forallv(k, string, has(g.edges.edges, k) ==> ghost.wedge(g.edges.edges[k]), has(g.edges.edges, k)) && forall(i, 0, len(cands(g, c)), ix(i) ==> candOK(cands(g, c)[i]), spec.idx(i))
 //@ func (*Graph).WalkChainsAsync
 //@   uses xadd
 //@   requires walkReq(g, c)
@@ -345,30 +351,49 @@ package verifier
 //             mark, else intermediate iff IsCA with a parent, else leaf iff a parent, else unknown;
 //  [parents]  Parents come from ValidAtExpirationChains if Expired, else from CurrentChains
 //             (at call parentsFromChains), every parent is the second certificate of a chain of
-//             that list, one per fingerprint (parentsFromChains' contract restated on the result);
+//             that list (parentsFromChains' contract restated on the result);
 //  [flow]     both date filters get the right input: the walked chains at the verification time,
-//             then the three lists concatenated at NotAfter minus one second;
+//             then the three lists concatenated at NotAfter minus one second (at call ...);
+//  [lists]    every chain of the four result lists is one of the chains the graph walk found
+//             (ghost.walked: the event defined by WalkChains' assumed contract);
+//  [revset]   without OneCRL and CRLSet the certificate is not reported as in a revocation set;
 //  [fresh]    the result is a new object.
+// The date classification of the lists ("current / expired / never valid") is NOT stated: the
+// proved contract of x509.FilterByDate (certpool area) gives membership only.
+//
+// Chain shape facts are carried in one form throughout: quantifiers over positions are triggered
+// by the element term (reliable under `uses xadd`) and carry the always-true marker
+// spec.pmark(i) as a premise, so that each fact can be proved from x509's pmark-triggered
+// clauses (the marker is in the goal) and used at compound indices (the element term is there;
+// the marker premise is discharged by pmark's axiom). The `at call Add` / `at call
+// parentsFromChains` assertions stage the proof (list by list, then the concatenation); proved
+// at-call assertions are available as facts afterwards.
 //@ pred isRootIn(g, c) = inSet(g.edges, certKey(c)) && g.edges.edges[certKey(c)].root
 //@ pred relevantChains(res) = ite(res.Expired, res.ValidAtExpirationChains, res.CurrentChains)
 //@ pred secondOf(chains, p) = !forall(i, 0, len(chains), !(ix(i) && len(chains[i]) >= 2 && p == chains[i][1]), spec.idx(i))
-// every certificate that exists carries validity dates without monotonic clock reading (they come
-// from parsing or time.Date; only time.Now returns such readings): precondition of FilterByDate
-// and of the documented meaning of TimeInValidityPeriod.
+// the certificates of the graph region and c (ghost.cert, see the walker section) exist and carry
+// validity dates without monotonic clock reading (they come from parsing or time.Date; only
+// time.Now returns such readings): precondition of FilterByDate.
+//@ pred certGood(c) = c != nil && !hasMono(c.NotBefore) && !hasMono(c.NotAfter)
+//@ pred goodChain(x) = allocated(x) && forall(m, 0, len(x), !spec.pmark(m) || certGood(x[m]), x[m])
+//@ pred goodList(l) = forall(j, 0, len(l), !spec.pmark(j) || goodChain(l[j]), l[j])
+// x is one of the chains of list l (same slice value)
+//@ pred chainOf(l, x) = !forall(i, 0, len(l), !spec.pmark(i) || !same(x, l[i]), spec.pmark(i))
+//@ pred subList(a, l) = forall(j, 0, len(a), !spec.pmark(j) || chainOf(l, a[j]), a[j])
 //@ pred certOK(c) = c != nil && allocated(c) && allocated(c.Extensions) && allocated(c.DNSNames) && allocated(c.IPAddresses) && forall(j, 0, len(c.Extensions), allocated(c.Extensions[j].Id), spec.mark(j)) && forall(j, 0, len(c.IPAddresses), allocated(c.IPAddresses[j]), spec.mark(j))
 //@ func (*Verifier).VerifyWithContext
 //@   uses xadd
 //@   requires v != nil && v.PKI != nil && certOK(c)
 //@   requires walkReq(v.PKI, c)
-//@   requires forallv(x, *x509.Certificate, x != nil && allocated(x) ==> !hasMono(x.NotBefore), hasMono(x.NotBefore))
-//@   requires forallv(x, *x509.Certificate, x != nil && allocated(x) ==> !hasMono(x.NotAfter), hasMono(x.NotAfter))
+//@   requires forallv(x, *x509.Certificate, ghost.cert(x) ==> x != nil && allocated(x) && !hasMono(x.NotBefore) && !hasMono(x.NotAfter), ghost.cert(x))
 //@   requires opts.OneCRL == nil && opts.CRLSet == nil
-//@   at call VerifyHostname assert arg0 == c && arg1 == opts.Name
-//@   at call FilterByDate#1 assert same(arg0, graphChains) && same(arg1, opts.VerifyTime)
-//@   at call Add assert same(arg0, c.NotAfter) && arg1 == -1000000000
-//@   at call FilterByDate#2 assert same(arg0, allChains) && same(arg1, expirationTime)
-//@   at call parentsFromChains#1 assert res.Expired && same(arg0, res.ValidAtExpirationChains)
-//@   at call parentsFromChains#2 assert !res.Expired && same(arg0, res.CurrentChains)
+//@   at call FilterByDate#1 assert [flow] same(arg0, graphChains) && same(arg1, opts.VerifyTime) && goodList(graphChains)
+//@   at call VerifyHostname assert [name] arg0 == c && arg1 == opts.Name
+//@   at call Add assert [stage] goodList(res.CurrentChains) && goodList(res.ExpiredChains) && goodList(res.NeverValidChains) && goodList(allChains)
+//@   at call Add assert [stage] subList(res.CurrentChains, graphChains) && subList(res.ExpiredChains, graphChains) && subList(res.NeverValidChains, graphChains) && subList(allChains, graphChains)
+//@   at call Add assert [flow] same(arg0, c.NotAfter) && arg1 == -1000000000
+//@   at call FilterByDate#2 assert [flow] same(arg0, allChains) && same(arg1, expirationTime)
+//@   at call parentsFromChains assert [parents] (res.Expired ==> same(arg0, res.ValidAtExpirationChains)) && (!res.Expired ==> same(arg0, res.CurrentChains)) && goodList(arg0) && subList(res.ValidAtExpirationChains, graphChains)
 //@   ensures [fresh] res != nil && fresh(res)
 //@   ensures [name] res.Name == opts.Name && (len(opts.Name) == 0 ==> res.NameError == nil)
 //@   ensures [type] isRootIn(v.PKI, c) ==> res.CertificateType == x509.CertificateTypeRoot
@@ -376,5 +401,6 @@ package verifier
 //@   ensures [type] !isRootIn(v.PKI, c) && !c.IsCA && len(res.Parents) > 0 ==> res.CertificateType == x509.CertificateTypeLeaf
 //@   ensures [type] !isRootIn(v.PKI, c) && len(res.Parents) == 0 ==> res.CertificateType == x509.CertificateTypeUnknown
 //@   ensures [parents] forall(j, 0, len(res.Parents), px(j) ==> secondOf(relevantChains(res), res.Parents[j]), spec.pos(j))
+//@   ensures [lists] forallv(w, []x509.CertificateChain, ghost.walked(v.PKI, c, w) ==> subList(res.CurrentChains, w) && subList(res.ExpiredChains, w) && subList(res.NeverValidChains, w) && subList(res.ValidAtExpirationChains, w), ghost.walked(v.PKI, c, w))
 //@   ensures [revset] !res.InRevocationSet
 //@   modifies c.ValidSignature, ghost.walked, ghost.keySigOK, ghost.bigEq, ghost.bigStr
